@@ -482,6 +482,10 @@ func (in *Interp) runInitTolerant(fn *ssa.Function) {
 	defer func() { in.tolerant--; in.top = savedTop }()
 	fr := &frame{in: in, fn: fn, env: map[ssa.Value]Value{}, caller: nil, visits: map[int]int{}}
 	in.top = fr
+	for _, l := range fn.Locals {
+		// composite literals of struct type in initialisers are stack locals
+		fr.env[l] = in.newLoc(l.Type().(*types.Pointer).Elem())
+	}
 	// find the block following the init-guard test: execute all blocks in
 	// order except the first test; the synthesized init has the shape
 	//   0: if init$guard goto 2 else 1 ; 1: guard=true; ...stores...; jump 2 ; 2: return
@@ -520,6 +524,7 @@ func (in *Interp) runInitBlock(fr *frame) {
 					case pathEnd:
 						panic(r)
 					}
+					dbg("init of %s: %s poisoned: %s", fr.fn.Pkg.Pkg.Path(), instr.String(), why)
 					if v, ok := instr.(ssa.Value); ok {
 						fr.env[v] = PoisonV{Why: why}
 					}
